@@ -81,7 +81,7 @@ if coll is not None:
             from sigma.validators.core import validators
 
             coll2 = SigmaCollection.from_dicts(copy.deepcopy(sc["documents"]), collect_errors=True)
-            v = SigmaValidator([c for n, c in validators.items() if "attack" not in n and "d3fend" not in n])
+            v = SigmaValidator([c for n, c in validators.items() if "attack" not in n and "d3" not in n])
             issues = v.validate_rules(coll2)
             out["issues"] = sorted(
                 type(i).__name__ + ":" + ",".join(sorted(str(r.title) for r in i.rules)) + ":" +
